@@ -197,6 +197,9 @@ pub fn classify_chunks(chunks: &[Chunk], enc: &EncodedLzma2, st: &mut LocalStats
     if chunks.len() > 255 {
         st.class("chunks>255");
     }
+    if chunks.len() > 65535 {
+        st.class("chunks>65535");
+    }
     L2Shape {
         nontrivial: chunks.len() >= 2 && n_comp >= 1,
     }
@@ -300,6 +303,64 @@ impl Property for C02 {
             xz_check: a.1,
         }
     }
+    fn fixed_cases(&self, tier: Tier) -> Vec<Case> {
+        let mut v = Vec::new();
+        // (1) more than 65536 chunks in one stream
+        {
+            let mut chunks = Vec::with_capacity(70_000);
+            for i in 0..70_000u32 {
+                chunks.push(Chunk::Raw { reset_dict: i == 0, data: vec![(i % 251) as u8] });
+            }
+            v.push(Case { chunks, xz_check: 1 });
+        }
+        // (2) a long history in one dictionary epoch: 10 (thorough: 20) compressed chunks of
+        // about 2 MiB each, with copies reaching back up to the whole history
+        {
+            use crate::refmodel::model::Props;
+            let n_chunks = tier.pick(10, 20);
+            let mut chunks = Vec::new();
+            let mut produced: u64 = 0;
+            let mut x = 0x0123_4567_89AB_CDEFu64;
+            for ci in 0..n_chunks {
+                let mut ops: Vec<Op> = Vec::new();
+                let mut here: u64 = 0;
+                for _ in 0..200 {
+                    x ^= x << 13;
+                    x ^= x >> 7;
+                    x ^= x << 17;
+                    ops.push(Op::Lit((x >> 40) as u8));
+                    here += 1;
+                }
+                while here + 273 <= (1 << 21) - 300 {
+                    x ^= x << 13;
+                    x ^= x >> 7;
+                    x ^= x << 17;
+                    let total = produced + here;
+                    // far, medium and near distances
+                    let dist = match x % 4 {
+                        0 => 1 + (x >> 8) % total,
+                        1 => total - (x >> 8) % total.min(4096),
+                        2 => 1 + (x >> 8) % total.min(1 << 16),
+                        _ => (total / 2).max(1),
+                    };
+                    ops.push(Op::Match { dist: dist.min(0xFFFF_FFF0) as u32, len: 273 });
+                    here += 273;
+                    if x % 11 == 0 {
+                        ops.push(Op::Lit((x >> 33) as u8));
+                        here += 1;
+                    }
+                }
+                produced += here;
+                chunks.push(Chunk::Lzma {
+                    reset: if ci == 0 { Reset::All } else if ci % 3 == 0 { Reset::StateProps } else { Reset::None },
+                    props: Props::new(3, 0, 2),
+                    ops,
+                });
+            }
+            v.push(Case { chunks, xz_check: 4 });
+        }
+        v
+    }
     fn rule(&self) -> String {
         "proptest generates abstract chunk sequences (uncompressed chunks 0x01/0x02, LZMA chunks with every reset class, property changes with lc+lp<=4, symbol programs whose copies may reach any byte since the last dictionary reset, chunks steered to the 1-byte / 64 KiB / 2 MiB / 64 KiB-packed extremes); sequencing rules and limits are enforced by construction. The stream is serialised by the reference writer and decoded by lzma2_decompress, raw::Lzma2Decoder and (wrapped in one .xz block) xz_decompress; expected bytes = direct interpretation of the chunk programs (cross-checked against the reference LZMA2 decoder and liblzma's raw LZMA2 decoder). Non-trivial = at least 2 chunks of which at least 1 is compressed; distinct = SipHash of the concrete chunk sequence.".into()
     }
@@ -322,6 +383,8 @@ impl Property for C02 {
             ("size:raw=65536", 10 * m),
             ("size:raw=1", 30 * m),
             ("chunks>255", 500 * m),
+            ("chunks>65535", 1),
+            ("history > 16 MiB in one dictionary epoch", 1),
             ("size:unpacked exact multiple of 128KiB", 100 * m),
         ]
     }
@@ -366,6 +429,9 @@ impl Property for C02 {
             sink: crate::iowrap::SinkCfg { max_per_write: vec![1 + ((h >> 20) % 7) as usize, 4096], ..Default::default() },
             ..Default::default()
         };
+        if enc.output.len() > (16 << 20) {
+            st.class("history > 16 MiB in one dictionary epoch");
+        }
         if expected.len() <= 200_000 {
             st.eval();
             st.class("also: fragmenting reader + short-writing sink");
